@@ -700,7 +700,8 @@ impl Add for Natural {
                 }
             }
 
-            debug_assert_eq!(vec.capacity(), vec.len());
+            // `len` may be one too large (see above)
+            debug_assert!(vec.len() == vec.capacity() || vec.len() + 1 == vec.capacity());
             return Self::from_mantissa_with_shl(vec.into_boxed_slice(), l_shl);
         }
 
